@@ -12,6 +12,10 @@ from .common import Acc, relevant_mutations, outcome_sig
 PROP = 'C04'
 
 
+LONG = 'L' * 300
+LONGP = dict(paths=[LONG + '/z', 'd/' + LONG + '/z', 'd/e/' + LONG + '/z', 'd/x'])
+
+
 def spaces(tier):
     small = dict(paths=['a', 'd', 'd/x', 'd/y', 'd/e/z'], bf_modes=['ok', 'rb', 'ra'], sb_modes=['ok', 'rb'])
     if tier == 'quick':
@@ -21,6 +25,8 @@ def spaces(tier):
             dict(family='probe', size=1, level=1, cfg='K0', t0=['empty', 'full'], mut='none'),
             dict(size=2, level=2, cfg='K0', t0=['empty', 'dir_d_j'], mut='outputs', kw=small),
             dict(family='chain3', size=3, level=1, cfg='K0', t0=['empty'], mut='none'),
+            # directories made before a mkdir that fails (over-long component) must not stay in the view
+            dict(size=1, level=2, cfg='K0', t0=['empty', 'dir_d', 'dir_d_e'], mut='none', kw=LONGP),
             # two outputs in one directory two created levels deep (sibling reservations below a new grandparent)
             dict(size=2, level=2, cfg='K0', t0=['empty', 'dir_d'], mut='none',
                  kw=dict(paths=['d/e/z', 'd/e/w', 'd/x'], bf_modes=['ok', 'rb', 'ra'], sb_modes=['ok'])),
@@ -32,6 +38,7 @@ def spaces(tier):
         dict(family='probe', size=2, level=1, cfg='K0', t0=['empty', 'full'], mut='none'),
         dict(size=2, level=2, cfg='K0', t0=['empty', 'dir_d_j', 'full', 'file_d'], mut='rel'),
         dict(family='chain3', size=3, level=2, cfg='K0', t0=['empty', 'dir_d_j'], mut='outputs'),
+        dict(size=2, level=2, cfg='K0', t0=['empty', 'dir_d', 'dir_d_e', 'file_d'], mut='none', kw=dict(LONGP, sb_modes=['ok'])),
     ]
 
 
